@@ -72,6 +72,23 @@ func firstLine(out string) string {
 }
 
 func (s *Solver) Solve(query string, want string) Verdict {
+	if want == "cover" {
+		// vacuity checks only need a quick look
+		s2 := *s
+		if s2.timeout > 5 {
+			s2.timeout = 5
+		}
+		s2.mu = sync.Mutex{}
+		s.mu.Lock()
+		s.seq += 1000
+		s2.seq = s.seq
+		s.mu.Unlock()
+		return s2.solve(query)
+	}
+	return s.solve(query)
+}
+
+func (s *Solver) solve(query string) Verdict {
 	h := sha256.Sum256([]byte(query))
 	key := hex.EncodeToString(h[:])
 	cpath := filepath.Join(s.cacheDir, key)
